@@ -1648,10 +1648,31 @@ def guard_task(task, tr):
     tr.stubs |= set(Stubs.LIST)
     tr.stubs.add({'inf-hastings': 'first operator step reports an infinite Hastings term (as HMC / GMRF operators do on failure)',
                   'nan-density': 'the uninterpreted target returns NaN at the first proposal'}[which])
-    run = symbolic_run(spec, {'u1': 0.02, 'xi1': 0.12}, hooks)
+    def not_rejected(why):
+        # the NaN density was not stopped by the guard: decide on plain tensors (stubbed RNG) whether the chain accepted it
+        ok, detail = replay_guard(which)
+        if ok:
+            tr.violation('MCMC.run:nan-density-not-rejected',
+                         f'{label}: a proposal whose target density is NaN is not rejected ({why}): {detail}', {'kind': 'guard', 'which': which})
+        else:
+            tr.inconc(f'{label}: {why}, but the concrete replay rejects and restores ({detail})')
+
+    from symtorch.expr import EngineError
+
+    try:
+        run = symbolic_run(spec, {'u1': 0.02, 'xi1': 0.12}, hooks)
+    except EngineError as e:
+        if which != 'nan-density':
+            raise
+        tr.witness_runs += 1
+        return not_rejected(f'the NaN flowed past the non-finite guard of MCMC.run into the acceptance computation: {str(e)[:80]}')
     tr.witness_runs += 1
     tr.regions += 1
     d = run.d
+    if which == 'nan-density' and run.rec['iters']:
+        f0 = run.rec['iters'][0]
+        if f0['accepted'] is not False or f0.get('post') != f0['before']:
+            return not_rejected(f'accepted={f0["accepted"]}, state restored={f0.get("post") == f0["before"]}')
     if [c for c in run.concretized if 'isnan' not in c and 'isinf' not in c]:
         tr.inconc(f'{label}: concretised {run.concretized[:3]}')
         return
@@ -1692,6 +1713,10 @@ def replay_guard(which):
     ev = rec['iters'][0]
     if rec['crash']:
         return True, rec['crash']
+    if which == 'nan-density' and (ev['accepted'] is not False or ev['post'] != ev['before']):
+        return True, (f'real MCMC.run on plain tensors (u={ev["u"]!r}): the target returned NaN at the proposed state {ev["after"]}, '
+                      f'accepted={ev["accepted"]}, acceptance probability handed to tune() {ev["acc"]!r}, chain state afterwards '
+                      f'{ev["post"]} (before the proposal {ev["before"]})')
     if ev['accepted'] is not False or ev['post'] != ev['before']:
         return True, f'accepted={ev["accepted"]}, parameters after the move {ev["post"]}, before {ev["before"]}'
     return False, 'rejected and restored'
